@@ -422,9 +422,17 @@ def render (os : List (Tid × Obs)) : List String :=
 
 def rev64 (n : Nat) : Nat := (BitVec.ofNat 64 n).reverse.toNat
 
-/-- `hash` = identity on the key (`coll = false`) or key >> 1 (`coll = true`: pairs of keys with the same hash). -/
-def cfg64 (coll : Bool) (cap lf : Nat) : Cfg where
-  hash k := if coll then k.toNat / 2 else k.toNat
+/-- The hash functors of the harness client (keys are `long`, the hash is `size_t`): `mode = 0` the key itself,
+    `mode = 1` key >> 1 (pairs of keys with the same hash), `mode = 2` key - 1 (key 0 hashes to `SIZE_MAX`: all bits
+    set, so bucket numbers with high bits occur). -/
+def hash64 (mode : Nat) (k : Int) : Nat :=
+  match mode with
+  | 1 => (k % 18446744073709551616).toNat / 2
+  | 2 => ((k - 1) % 18446744073709551616).toNat
+  | _ => (k % 18446744073709551616).toNat
+
+def cfg64 (mode : Nat) (cap lf : Nat) : Cfg where
+  hash := hash64 mode
   reg h := rev64 h ||| 1
   dum b := rev64 b &&& (2 ^ 64 - 2)
   cap := cap
@@ -436,7 +444,7 @@ def cfgNat (key : String) (ws : List String) : Option Nat :=
 
 /-- The configuration from the words `cap=… lf=… coll=…` of the case header. -/
 def cfgOf (ws : List String) : Cfg :=
-  cfg64 ((cfgNat "coll" ws).getD 0 == 1) ((cfgNat "cap" ws).getD 64) ((cfgNat "lf" ws).getD 1)
+  cfg64 ((cfgNat "coll" ws).getD 0) ((cfgNat "cap" ws).getD 64) ((cfgNat "lf" ws).getD 1)
 
 /-- The machine with its configuration carried in the state (tie A: the driver learns the configuration from the
     case header, after it has chosen the model). -/
